@@ -1250,7 +1250,6 @@ def _sweep(worlds, root, tracer=None, tier="quick"):
                 before.append((name, p, out))
                 continue
             case = {"world": dict(w.kw), "entry": name, "p": p, "out": out, "before": list(before)}
-            del notes[:]
             tkey = (name, p, out, w.d, w.K if name in _KARY_ONLY else 0, w.T == 1)
             fresh = ("<scribble>", 0, False) in before  # third pass: new objects, and an empty working directory per call
             try:
@@ -1274,6 +1273,7 @@ def _sweep(worlds, root, tracer=None, tier="quick"):
                 "nontrivial": not rejected(res), "tags": ["sweep:" + name, f"sweep-world-{kw['variant']}", f"sweep-world-T{w.T}"]
                 + ([REJECTED] if rejected(res) and REJECTED not in notes else [])
                 + [t for t in notes if not t.startswith(REJECTED + ":")], "extra": {"sweep_calls": 1}}
+            del notes[:]
         try:
             h.check_watch("the last call of the sweep", full=True)
         except Violation as v:
